@@ -2,11 +2,13 @@ package main
 
 import (
 	"fmt"
+	"github.com/mithrandie/csvq/lib/verifhook"
 	"os"
 	"path/filepath"
 	"sort"
 	"strconv"
 	"strings"
+	"sync/atomic"
 	"time"
 
 	"verif/internal/core"
@@ -64,7 +66,90 @@ func c20Text(rows []c20Row) string {
 	return strings.Join(p, " ")
 }
 
+// c20Parallel: a statement whose rows are evaluated by several goroutines reads, through a sub-query, a table the transaction
+// has not loaded yet. The table is loaded once: should the statement start to load it again, B commits at that very moment
+// (a monitor at the load hook runs B to completion), so that a second load becomes visible as rows of one statement — and later
+// statements — showing two versions.
+func c20Parallel(w *core.Worker, i int) {
+	r := w.Rng(i, "parallel")
+	dir := core.FreshDir(w.Work, "par")
+	n := []int{160, 240, 320, 480, 640}[r.Intn(5)]
+	var sb strings.Builder
+	sb.WriteString("id\n")
+	for k := 1; k <= n; k++ {
+		fmt.Fprintf(&sb, "%d\n", k)
+	}
+	core.WriteFiles(dir, map[string]string{"o.csv": sb.String(), "t.csv": c20Render([]c20Row{{"1", "v0", "n"}, {"2", "v0", "n"}, {"3", "v0", "n"}}), "p.csv": "id\n1\n"})
+	s, err := core.NewSess(core.SessOpts{Dir: dir, Quiet: true, WaitTimeout: 10, CPU: r.Range(2, 8)})
+	if err != nil {
+		w.Inconclusive(err.Error())
+		return
+	}
+	defer s.Close()
+	stmt := []string{
+		"SELECT o.id, (SELECT x.ver FROM t x WHERE x.id = o.id % 3 + 1) AS v FROM o;",
+		"SELECT o.id, (SELECT MIN(ver) FROM t) AS v FROM o;",
+		"SELECT o.id, 'v0' AS v FROM o WHERE EXISTS (SELECT 1 FROM t WHERE t.ver = 'v0' AND t.id = o.id % 3 + 1);",
+		"SELECT o.id, (SELECT MAX(x.ver) FROM t x JOIN p ON 1 = 1 WHERE x.id <= o.id) AS v FROM o;",
+		"SELECT o.id, CASE WHEN o.id % 3 + 1 IN (SELECT id FROM t WHERE ver = 'v0') THEN 'v0' ELSE 'other' END AS v FROM o;",
+	}[r.Intn(5)]
+	var loads, bRuns int64
+	var bRes core.ProcResult
+	expected := int64(2)
+	if strings.Contains(stmt, "JOIN p ") {
+		expected = 3
+	}
+	verifhook.SetCallback(func(point string, hit int64) {
+		// (the first step of a read acquisition: nothing of the table is held yet, B can run to completion here)
+		if point != "rlock.checked" {
+			return
+		}
+		// loads of this statement: o, t (and p) once each; one more is a table loaded again
+		if k := atomic.AddInt64(&loads, 1); k == expected+1 && atomic.AddInt64(&bRuns, 1) == 1 {
+			bRes = core.RunProc(core.ProcOpts{Dir: dir, Args: csvqArgs("-q", "--wait-timeout", "3", "UPDATE t SET ver = 'B1';"), Timeout: 60 * time.Second})
+		}
+	})
+	res := s.Exec(stmt)
+	verifhook.SetCallback(nil)
+	viol := func(sig, what string) {
+		w.Violation(sig, fmt.Sprintf("%s (outer table of %d rows): %s", stmt, n, what), c20Replay{History: []string{stmt}, Detail: what})
+	}
+	if res.Err != nil || len(res.Views) != 1 {
+		viol("a-error", fmt.Sprint(res.Err))
+		return
+	}
+	other := 0
+	for _, row := range res.Views[0].Rows {
+		if row[1].S != "v0" {
+			other++
+		}
+	}
+	if len(res.Views[0].Rows) != n || other > 0 {
+		viol("stale-or-foreign-data:parallel-subquery", fmt.Sprintf("%d of %d rows of one statement do not show the version the transaction loaded (loads started during the statement: %d; B ran at the extra load: exit %d)", other+n-len(res.Views[0].Rows), n, atomic.LoadInt64(&loads), bRes.Code))
+		return
+	}
+	// the next read of the same transaction still sees what was loaded, whatever B does now
+	b2 := core.RunProc(core.ProcOpts{Dir: dir, Args: csvqArgs("-q", "--wait-timeout", "10", "UPDATE t SET ver = 'B2';"), Timeout: 60 * time.Second})
+	again := s.Exec("SELECT ver FROM t;")
+	if again.Err != nil || len(again.Views) != 1 {
+		viol("a-error", fmt.Sprint(again.Err))
+		return
+	}
+	for _, row := range again.Views[0].Rows {
+		if row[0].S != "v0" {
+			viol("stale-or-foreign-data:parallel-subquery", fmt.Sprintf("after the statement the transaction reads version %s of the table it had loaded as v0 (B committed meanwhile: exit %d)", row[0].S, b2.Code))
+			return
+		}
+	}
+	w.Count("parallel_statements_loading_a_table_in_a_sub-query", 1)
+	w.Count("loads_started_by_those_statements", atomic.LoadInt64(&loads))
+	w.Case(core.Digest("parallel", stmt, fmt.Sprint(n, i)), b2.Code == 0)
+}
+
 func c20Case(w *core.Worker, i int) {
+	if i%6 == 1 {
+		c20Parallel(w, i)
+	}
 	r := w.Rng(i, "")
 	// A's history
 	type stmt struct {
